@@ -48,6 +48,8 @@ pub fn nmaps() -> usize {
 pub fn run_case(stage: &str, case: &Value, seed: u64) -> Outcome {
     match stage {
         "deb822_strings" => deb822::run_strings(case, seed),
+        "deb822_docs" => deb822::run_docs(case, seed),
+        "deb822_files" => deb822::run_files(case, seed),
         _ => panic!("unknown stage {}", stage),
     }
 }
@@ -64,6 +66,7 @@ pub fn fatal_props(stage: &str, _api: &str) -> Vec<&'static str> {
 pub fn features(stage: &str, case: &Value) -> Vec<String> {
     match stage {
         "deb822_strings" => deb822::string_features(case),
+        "deb822_docs" => deb822::doc_features(case),
         _ => vec![],
     }
 }
